@@ -36,6 +36,10 @@ pub struct ProcPart {
     pub area: String,
     pub pass_area: bool,
     pub pass_kexp: bool,
+    /// Save over the input files themselves (`--oc` = the `-c` file, `--of` = the `-f` file): a command
+    /// sequence over the same files.
+    #[serde(default)]
+    pub in_place: bool,
 }
 
 #[derive(Clone, Debug, Serialize, Deserialize)]
@@ -424,8 +428,10 @@ fn process_world(ctx: &Ctx, scn: &Scn, pp: &ProcPart, ex: &mut Exec, fp: &mut Fn
         common.push("-F".into());
     }
     argv1.extend(common.iter().cloned());
-    argv1.extend(["--oc", "oc.csv", "--of", "of.csv", "--json", "r1.json"].iter().map(|s| s.to_string()));
-    let mut argv2: Vec<String> = vec!["-c", "oc.csv", "-f", "of.csv", "--json", "r2.json"].iter().map(|s| s.to_string()).collect();
+    let has_ffile = matches!(scn.cfg.factors, FactorSpec::File(_));
+    let (oc, of) = if pp.in_place { ("in.csv", if has_ffile { "f.csv" } else { "of.csv" }) } else { ("oc.csv", "of.csv") };
+    argv1.extend(["--oc", oc, "--of", of, "--json", "r1.json"].iter().map(|s| s.to_string()));
+    let mut argv2: Vec<String> = vec!["-c", oc, "-f", of, "--json", "r2.json"].iter().map(|s| s.to_string()).collect();
     argv2.extend(common.iter().cloned());
     for name in &pp.stale {
         image = image.with_file(name, Blob::Utf8("STALE-BYTES-OF-AN-EARLIER-RUN ".repeat(3000)));
@@ -464,7 +470,7 @@ fn process_world(ctx: &Ctx, scn: &Scn, pp: &ProcPart, ex: &mut Exec, fp: &mut Fn
         ex.count("process_runs_without_result", 1);
         return None;
     }
-    for name in ["oc.csv", "of.csv"] {
+    for name in [oc, of] {
         match disk.read(name) {
             None => return Some(Violation::new("saved_file_damaged", name, format!("{}: {} was not written", what1, name))),
             Some(bytes) => {
@@ -487,7 +493,7 @@ fn process_world(ctx: &Ctx, scn: &Scn, pp: &ProcPart, ex: &mut Exec, fp: &mut Fn
         return Some(Violation::new(
             "roundtrip_result",
             "second-run-fails",
-            format!("{}: exit {:?}: {} — saved components: {:?}", what2, o2.exit, truncate(o2.stderr_text().trim(), 300), truncate(&String::from_utf8_lossy(&disk.read("oc.csv").unwrap_or_default()), 500)),
+            format!("{}: exit {:?}: {} — saved components: {:?}", what2, o2.exit, truncate(o2.stderr_text().trim(), 300), truncate(&String::from_utf8_lossy(&disk.read(oc).unwrap_or_default()), 500)),
         ));
     }
     let r1: Option<Value> = disk.read("r1.json").and_then(|b| serde_json::from_slice(&b).ok());
@@ -741,6 +747,7 @@ impl Property for C18 {
                 area: a_tok,
                 pass_area: o.chance(0.7),
                 pass_kexp: o.chance(0.7),
+                in_place: o.chance(0.15),
             })
         } else {
             None
@@ -844,6 +851,11 @@ impl Property for C18 {
             for i in 0..pp.plan2.len() {
                 let mut n = scn.clone();
                 n.proc_part.as_mut().unwrap().plan2.remove(i);
+                out.push(n);
+            }
+            if pp.in_place {
+                let mut n = scn.clone();
+                n.proc_part.as_mut().unwrap().in_place = false;
                 out.push(n);
             }
             for (a, k) in [(false, pp.pass_kexp), (pp.pass_area, false)] {
